@@ -132,7 +132,7 @@ fn with_shadow_attribution(rep: &mut Report, recursive_util: bool, f: impl Fn(&m
       } else if recursive_util {
         // known: a self / forward reference is resolved while the local utility is not registered yet,
         // so the kind caches of all/any are computed from the global utility of the same id
-        "C01/kind-cache/local-shadows-global/recursive-util".to_string()
+        "C01/kind-cache/local-shadows-global/unregistered-at-construction".to_string()
       } else {
         format!("{sig}/local-shadows-global")
       }
@@ -151,6 +151,33 @@ fn with_shadow_attribution(rep: &mut Report, recursive_util: bool, f: impl Fn(&m
     first.viol_sigs = renamed.viol_sigs;
   }
   crate::mon::c19::merge(rep, first);
+}
+
+/// does a local utility refer to a local utility from a place the registration order does not follow
+/// (below a relation or a stop rule), or to itself?  Such a reference is resolved while its target may not be
+/// registered yet -- the precondition of the known shadowing defect.
+fn has_untracked_util_reference(yaml: &str) -> bool {
+  fn walk(v: &Value, below_relation: bool, found: &mut bool) {
+    match v {
+      Value::Object(m) => {
+        for (k, x) in m {
+          if k == "matches" && below_relation {
+            *found = true;
+          }
+          let rel = below_relation || matches!(k.as_str(), "has" | "inside" | "follows" | "precedes" | "stopBy");
+          walk(x, rel, found);
+        }
+      }
+      Value::Array(a) => a.iter().for_each(|x| walk(x, below_relation, found)),
+      _ => {}
+    }
+  }
+  let Ok(doc) = serde_json::from_str::<Value>(yaml) else { return false };
+  let mut found = yaml.contains("\"UR\"");
+  if let Some(utils) = doc.get("utils") {
+    walk(utils, false, &mut found);
+  }
+  found
 }
 
 fn decoy_globals(yaml: &str) -> Option<GlobalRules<SupportLang>> {
@@ -365,7 +392,7 @@ pub fn run_source(lang: SupportLang, fname: &str, src: &str, budget: (usize, usi
         let replay = json!({"monitor":"c01","case":"rule","lang":lname,"file":fname,"source":src,"rules":[y]});
         rep.evaluations += 1;
         let n = std::cell::Cell::new(0usize);
-        with_shadow_attribution(rep, y.contains("\"UR\""), |r| {
+        with_shadow_attribution(rep, has_untracked_util_reference(&y), |r| {
           if let Ok(rules) = load_rules(&[y.clone()]) {
             n.set(check_matcher(&rules[0].matcher, &root, &format!("rule {}", clip(&y, 160)), "rule", &replay, r).0);
           }
@@ -395,7 +422,7 @@ pub fn run_source(lang: SupportLang, fname: &str, src: &str, budget: (usize, usi
     let replay = json!({"monitor":"c01","case":"combined","lang":lname,"file":fname,"source":src,"rules":set});
     rep.evaluations += 1;
     let n = std::cell::Cell::new(0usize);
-    with_shadow_attribution(rep, set.iter().any(|y| y.contains("\"UR\"")), |r| {
+    with_shadow_attribution(rep, set.iter().any(|y| has_untracked_util_reference(&y)), |r| {
       if let Ok(rules) = load_rules(&set) {
         n.set(check_combined(&rules, lang, src, &replay, r));
       }
@@ -433,7 +460,7 @@ fn replay(r: &Value, rep: &mut Report) {
     }
     "rule" | "combined" => {
       let yamls: Vec<String> = r["rules"].as_array().unwrap().iter().map(|x| x.as_str().unwrap().to_string()).collect();
-      with_shadow_attribution(rep, yamls.iter().any(|y| y.contains("\"UR\"")), |out| {
+      with_shadow_attribution(rep, yamls.iter().any(|y| has_untracked_util_reference(&y)), |out| {
         let Ok(rules) = load_rules(&yamls) else { return };
         if r["case"] == "rule" {
           check_matcher(&rules[0].matcher, &root, "rule", "rule", r, out);
